@@ -53,13 +53,13 @@ def propose(rng):
                 u[i] *= sh / sl
             tot = sum(u.values())
             x = {i: u[i] / tot for i in present}
-            V = rng.choice([F(1, 4), F(1, 2), F(3, 4), F(1, 10), F(9, 10), F(1, 3)])
+            V = rng.choice([F(1, 4), F(1, 2), F(3, 4), F(1, 10), F(9, 10), F(1, 3), F(1, 1000), F(999, 1000), F(1, 100)])
             z = {i: x[i] * (1 + V * (K[i] - 1)) for i in present}
             m = lcm(*[v.denominator for v in z.values()])
             w = [0] * n
             for i in present:
                 w[i] = int(z[i] * m)
-            if max(w) > 3000 or max(v.denominator for v in x.values()) > 3000:
+            if max(w) > 30000 or max(v.denominator for v in x.values()) > 3000:
                 continue
             xs = [q(x.get(i, 0)) for i in range(n)]
             return dict(w=w, T=T, P=P, region='two', x=xs, V=q(V))
@@ -78,7 +78,8 @@ def propose(rng):
     raise RuntimeError('no proposal')
 
 
-def exact(op, a, scale, in_gas):
+def exact(op, a, scale, in_gas, prior_scale=None):
+    """prior_scale: the same stream was flashed before at the same specification holding prior_scale x the feed"""
     obs = dict(exc=NONE, msg='', T6=0, P6=0, vf9=[0] * len(A))
     try:
         with warnings.catch_warnings():
@@ -87,10 +88,22 @@ def exact(op, a, scale, in_gas):
                 th = db.synthetic()
                 ids = [c.ID for c in th.chemicals]
                 ms = tmo.MultiStream(None, thermo=th, phases='gl', T=350., P=101325.)
+                V = a['V'][0] / a['V'][1]
+                if prior_scale is not None:
+                    for i, wi in enumerate(a['w']):
+                        if wi:
+                            ms.imol['l', ids[i]] = wi * prior_scale
+                    if op == 'tp_exact':
+                        ms.vle(T=float(a['T']), P=1000. * a['P'])
+                    elif op == 'tv_exact':
+                        ms.vle(T=float(a['T']), V=V)
+                    else:
+                        ms.vle(P=1000. * a['P'], V=V)
+                    ms.imol['g'] = 0.
+                    ms.imol['l'] = 0.
                 for i, wi in enumerate(a['w']):
                     if wi:
                         ms.imol['g' if in_gas else 'l', ids[i]] = wi * scale
-                V = a['V'][0] / a['V'][1]
                 if op == 'tp_exact':
                     ms.vle(T=float(a['T']), P=1000. * a['P'])
                 elif op == 'tv_exact':
@@ -100,7 +113,7 @@ def exact(op, a, scale, in_gas):
                 g = np.asarray(ms.imol['g'].to_array(), float)
                 l = np.asarray(ms.imol['l'].to_array(), float)
                 tot = g + l
-                vf = [int(round(g[i] / tot[i] * 1e9)) if tot[i] > 0 else 0 for i in range(len(A))]
+                vf = [int(min(max(round(g[i] / tot[i] * 1e9), -1), 10 ** 9 + 1)) if tot[i] > 0 else (0 if g[i] == 0 else -1) for i in range(len(A))]
                 obs.update(T6=cap(ms.T * 1e6), P6=cap(ms.P / 1000. * 1e6), vf9=vf)
     except Exception as e:
         obs['exc'], obs['msg'] = type(e).__name__, str(e)[:160]
